@@ -1,5 +1,6 @@
 (* C07 - Copybook to schema: every entry appears once, in place, and none is lost.
-   Only the property theorems, each closed by an exact lemma of Proofs/StructureP.v.
+   Only the property theorems, each closed by an exact lemma of Proofs/StructureP.v,
+   Proofs/StructureFullP.v (when structure raises) or Proofs/SentenceValueP.v (text layer, finding 5).
 
    [structure l] is the model of cobol_parser.structure run on the sentences l after clause_dict
    (Model/Structure.v: DDE naming with the FILLER counter, the stack walk with two-character string
@@ -12,7 +13,8 @@
    the implementation.  No well-nesting of the level sequence is assumed anywhere. *)
 From Coq Require Import NArith List.
 Import ListNotations.
-Require Import SR.Base.Res SR.Spec.Dde SR.Model.Structure SR.Proofs.StructureP.
+Require Import SR.Base.Res SR.Spec.Dde SR.Model.Structure SR.Proofs.StructureP SR.Proofs.StructureFullP.
+Require SR.Model.RefFormat SR.Proofs.SentenceValueP.
 
 (* Every kept entry exactly once and in source order; the parent of each is the nearest preceding
    kept entry with a strictly smaller level number; the trees start exactly at the entries that
@@ -77,16 +79,23 @@ Theorem C07_generated_names_injective : forall n m : N, gen_name n = gen_name m 
 Proof. exact gen_name_inj. Qed.
 Print Assumptions C07_generated_names_injective.
 
-(* REDEFINES errors.  Full-strength statement, over the specification's notion of earlier
-   siblings (Spec/Dde.v redefines_ok); NOT proved - see the partial theorems below. *)
-Definition C07_redefines_error_full : Prop :=
+(* REDEFINES errors, full strength, over the specification's notion of earlier siblings
+   (Spec/Dde.v redefines_ok: entries before it whose nearest preceding entry with a strictly smaller
+   level number is the same one; the first kept entry and every entry that starts a tree are exempt):
+   on a non-empty list with ASCII two-digit levels structure() returns exactly when every REDEFINES
+   clause of a non-root kept entry names exactly one earlier sibling, and raises ValueError otherwise.
+   E is the copybook as the specification sees it: (level number, data name, REDEFINES target) of the
+   kept entries.  Proved in Proofs/StructureFullP.v. *)
+Theorem C07_redefines_error_full :
   forall l : list entry, l <> [] ->
   Forall (fun e => two_digits (elv e) = true) l ->
   let E := map (fun d => (lvl_num (dlv d), dde_name (de d), eredef (de d))) (kept_of l) in
   (redefines_ok E = true -> exists f, structure l = Ok f)
   /\ (redefines_ok E = false -> structure l = Err ValueError).
+Proof. exact redefines_error_full. Qed.
+Print Assumptions C07_redefines_error_full.
 
-(* What is proved: the only exception of structure() on a non-empty list is ValueError ... *)
+(* The two earlier partial statements (kept): the only exception of structure() on a non-empty list is ValueError ... *)
 Theorem C07_redefines_error_partial : forall (l : list entry) (e : exn),
   structure l = Err e -> (l = [] /\ e = StopIter) \/ (l <> [] /\ e = ValueError).
 Proof. exact structure_err. Qed.
@@ -122,6 +131,35 @@ Theorem C07_refuted_2 : (exists f, structure witness2 = Ok f) /\ schemas witness
 Proof. split; [eexists|]; vm_compute; reflexivity. Qed.
 Print Assumptions C07_refuted_2.
 
+(* Known finding 5 (refutes "carrying its clause text"), on the text-layer model
+   (Model/RefFormat.v: reference_format, dde_sentences, compact_source).  The copybook
+          01 R.
+            05 FLD-A PIC X(5) VALUE 'A. B'.
+            05 FLD-B PIC X.
+   comes back as three entries, the second with the text  FLD-A PIC X(5) VALUE 'A  : the sentence
+   pattern ends the entry at the period inside the literal; no entry carries the text as written. *)
+Theorem C07_refuted_5 :
+  SentenceValueP.entry_texts SentenceValueP.witness5
+  = Ok [([48; 49], [82]); ([48; 53], SentenceValueP.w5_got); ([48; 53], [70; 76; 68; 45; 66; 32; 80; 73; 67; 32; 88])]%N
+  /\ SentenceValueP.w5_got <> SentenceValueP.w5_written
+  /\ (forall got, SentenceValueP.entry_texts SentenceValueP.witness5 = Ok got ->
+                  ~ In SentenceValueP.w5_written (map snd got)).
+Proof. exact SentenceValueP.refuted_5. Qed.
+Print Assumptions C07_refuted_5.
+
+(* ... and in general: an entry  d1 d2 blank a . w b  whose text a holds no period-white-space pair
+   (has_term a = false) comes back as (d1 d2, a) whatever follows the period and the white-space
+   character w - in particular when a . w b is one VALUE literal. *)
+Theorem C07_sentence_cut_at_period_ws :
+  forall (d1 d2 c : N) (a : SR.Model.RefFormat.line) (w : N) (b : SR.Model.RefFormat.line),
+  SR.Model.RefFormat.is_digit d1 = true -> SR.Model.RefFormat.is_digit d2 = true ->
+  SR.Model.RefFormat.is_ws c = false ->
+  SR.Spec.RefFormat.has_term (c :: a) = false -> SR.Model.RefFormat.is_ws w = true ->
+  exists more,
+    SR.Model.RefFormat.dde_sentences [[d1; d2; 32%N] ++ (c :: a) ++ 46%N :: w :: b] = ([d1; d2], c :: a) :: more.
+Proof. exact SentenceValueP.sentence_cut. Qed.
+Print Assumptions C07_sentence_cut_at_period_ws.
+
 (* Non-vacuity: 01 R. 05 A PIC. 05 (unnamed) PIC. 10 (unnamed) PIC. 88 B. 03 B REDEFINES A PIC. 01 (unnamed) PIC.
    structure returns; preorder, parents and roots as the specification says; FILLER-1, FILLER-2, then
    FILLER-1 again in the second record. *)
@@ -149,6 +187,27 @@ Proof.
   cbn zeta. split; [repeat constructor|]. split.
   - vm_compute. repeat constructor; cbn; intuition discriminate.
   - vm_compute. repeat constructor; intros n H; discriminate.
+Qed.
+
+(* non-vacuity of C07_redefines_error_full: the hypotheses hold on the sample (a REDEFINES that names
+   one earlier sibling across an 88 level and a deeper group: redefines_ok = true) and on the two failing
+   lists below (redefines_ok = false: no sibling, two siblings of that name) *)
+Definition Espec (l : list entry) := map (fun d => (lvl_num (dlv d), dde_name (de d), eredef (de d))) (kept_of l).
+Example C07_redefines_full_example :
+  let none := [mk 48 49 (Some nR) None false false; mk 48 53 (Some nB) (Some nA) true false]%N in
+  let two := [mk 48 49 (Some nR) None false false; mk 48 53 (Some nA) None true false;
+              mk 48 53 (Some nA) None true false; mk 48 53 (Some nB) (Some nA) true false]%N in
+  (* a cousin of that name is not a sibling: 01 R. 05 T. 10 A PIC. 05 U. 10 B REDEFINES A PIC. *)
+  let cousin := [mk 48 49 (Some nR) None false false; mk 48 53 (Some nT) None false false;
+                 mk 49 48 (Some nA) None true false; mk 48 53 (Some [85%N]) None false false;
+                 mk 49 48 (Some nB) (Some nA) true false]%N in
+  (sample <> [] /\ Forall (fun e => two_digits (elv e) = true) sample /\ redefines_ok (Espec sample) = true)
+  /\ (Forall (fun e => two_digits (elv e) = true) none /\ redefines_ok (Espec none) = false)
+  /\ (Forall (fun e => two_digits (elv e) = true) two /\ redefines_ok (Espec two) = false)
+  /\ (Forall (fun e => two_digits (elv e) = true) cousin /\ redefines_ok (Espec cousin) = false
+      /\ structure cousin = Err ValueError).
+Proof.
+  cbn zeta. repeat split; try discriminate; try (repeat constructor); vm_compute; reflexivity.
 Qed.
 
 (* zero matches and two matches *)
